@@ -414,8 +414,8 @@ def k2(ctx, n):
 
 
 def run(ctx):
-    k1(ctx, ctx.n(1200, 60000))
-    k2(ctx, ctx.n(300, 20000))
+    k1(ctx, ctx.n(1200, 15000))
+    k2(ctx, ctx.n(300, 4000))
 
 
 def search(ctx):
